@@ -187,11 +187,39 @@ type cpuPlan struct {
 	variants []string // variant names to run ("" = all)
 	pars     []int    // parallelism values to run (subset of 1..4)
 	repeats  int      // runs per (case, variant, par) in one process (C08)
+	pairs    bool     // case 2k+1 = case 2k with other operand values and memory contents (C12 value-independence)
 }
 
 func caseOf(seed int64, plan cpuPlan, i int) cpuCase {
+	if plan.pairs && i%2 == 1 {
+		c := caseOf(seed, plan, i-1)
+		r := hx.NewRand(seed*1000003 + int64(i)*7919 + 17)
+		regs := map[int]int32{}
+		keys := make([]int, 0, len(c.regs))
+		for k := range c.regs {
+			keys = append(keys, k)
+		}
+		sort.Ints(keys) // map order must not reach the PRNG: parent and worker regenerate the same case
+		for _, k := range keys {
+			regs[k] = hx.Pick32(r)
+		}
+		// also give values to registers that were unset (0) in the first run
+		for _, d := range allData {
+			if _, ok := regs[d]; !ok && r.Intn(2) == 0 {
+				regs[d] = hx.Pick32(r)
+			}
+		}
+		c.regs = regs
+		c.mem = randMem(r, c.memSize)
+		c.family += "-twin"
+		return c
+	}
 	r := hx.NewRand(seed*1000003 + int64(i)*7919 + 17)
-	return genCase(r, plan.families[i%len(plan.families)])
+	fi := i
+	if plan.pairs {
+		fi = i / 2
+	}
+	return genCase(r, plan.families[fi%len(plan.families)])
 }
 
 func inLine(id int, c cpuCase) string {
@@ -213,15 +241,20 @@ func inLine(id int, c cpuCase) string {
 }
 
 // runCase executes one case on every planned configuration; returns the Go-side lines.
-func runCase(id int, c cpuCase, plan cpuPlan) []string {
+// Configurations with index < skip are not run (the parent already has their lines); `progress`
+// is told the index of the configuration about to run (so a stalled worker can be diagnosed).
+func runCase(id int, c cpuCase, plan cpuPlan, skip int, progress func(cfg int, name string, par int)) []string {
 	var out []string
+	cfg := -1
 	app, err := risc.Parse(c.text)
 	if err != nil {
 		return []string{fmt.Sprintf("V %d parse-error %s", id, strings.ReplaceAll(err.Error(), " ", "_"))}
 	}
 	steps := refSteps(app, c, 100000)
 	budget := tickK * int(latency.MemoryAccess) * (steps + 64)
-	out = append(out, fmt.Sprintf("B %d gosteps=%d budget=%d", id, steps, budget))
+	if skip <= 0 {
+		out = append(out, fmt.Sprintf("B %d gosteps=%d budget=%d", id, steps, budget))
+	}
 	for _, v := range variants {
 		if len(plan.variants) > 0 {
 			keep := false
@@ -246,6 +279,16 @@ func runCase(id int, c cpuCase, plan cpuPlan) []string {
 					continue
 				}
 			}
+			cfg++
+			if skip > 0 && cfg < skip {
+				continue
+			}
+			if skip < 0 && cfg >= -skip {
+				continue
+			}
+			if progress != nil {
+				progress(cfg, v.name, n)
+			}
 			var first runResult
 			for rep := 0; rep < plan.repeats; rep++ {
 				// a fresh parse per run, except for the last repeat which re-uses the first parsed
@@ -269,14 +312,22 @@ func runCase(id int, c cpuCase, plan cpuPlan) []string {
 
 // ---- worker pool ------------------------------------------------------------
 
-func cpuWorkerMain(seed int64, planS string, lo, hi int) {
+func cpuWorkerMain(seed int64, planS string, lo, hi, skip int) {
 	plan := parsePlan(planS)
 	w := bufio.NewWriterSize(os.Stdout, 1<<16)
 	for i := lo; i < hi; i++ {
 		c := caseOf(seed, plan, i)
 		fmt.Fprintf(w, "BEGIN %d\n", i)
 		w.Flush()
-		for _, l := range runCase(i, c, plan) {
+		sk := 0
+		if i == lo {
+			sk = skip
+		}
+		lines := runCase(i, c, plan, sk, func(cfg int, name string, par int) {
+			fmt.Fprintf(w, "CFG %d %s %d\n", cfg, name, par)
+			w.Flush()
+		})
+		for _, l := range lines {
 			fmt.Fprintln(w, l)
 		}
 		fmt.Fprintf(w, "END %d\n", i)
@@ -289,7 +340,11 @@ func planString(p cpuPlan) string {
 	for i, x := range p.pars {
 		ps[i] = strconv.Itoa(x)
 	}
-	return fmt.Sprintf("%s|%d|%s|%s|%d", strings.Join(p.families, ","), p.n, strings.Join(p.variants, ","), strings.Join(ps, ","), p.repeats)
+	pr := "0"
+	if p.pairs {
+		pr = "1"
+	}
+	return fmt.Sprintf("%s|%d|%s|%s|%d|%s", strings.Join(p.families, ","), p.n, strings.Join(p.variants, ","), strings.Join(ps, ","), p.repeats, pr)
 }
 
 func parsePlan(s string) cpuPlan {
@@ -307,6 +362,7 @@ func parsePlan(s string) cpuPlan {
 		}
 	}
 	p.repeats, _ = strconv.Atoi(f[4])
+	p.pairs = len(f) > 5 && f[5] == "1"
 	return p
 }
 
@@ -315,8 +371,10 @@ func parsePlan(s string) cpuPlan {
 func runRange(seed int64, plan cpuPlan, lo, hi int, perCase time.Duration) map[int][]string {
 	res := map[int][]string{}
 	self, _ := os.Executable()
+	skip := 0
+	var carried []string // lines of the current case obtained before a stalled configuration
 	for lo < hi {
-		cmd := exec.Command(self, "-cpuworker", fmt.Sprintf("%d|%d|%d", seed, lo, hi), "-plan", planString(plan), "-out", "/dev/null", "cpuworker")
+		cmd := exec.Command(self, "-cpuworker", fmt.Sprintf("%d|%d|%d|%d", seed, lo, hi, skip), "-plan", planString(plan), "-out", "/dev/null", "cpuworker")
 		cmd.Env = append(os.Environ(), "GOMAXPROCS=2", "GOMEMLIMIT=1500MiB")
 		stdout, _ := cmd.StdoutPipe()
 		cmd.Stderr = nil
@@ -336,6 +394,7 @@ func runRange(seed int64, plan cpuPlan, lo, hi int, perCase time.Duration) map[i
 		var buf []string
 		done := lo
 		stalled := false
+		cfgIdx, cfgName, cfgPar := -1, "?", 0
 	loop:
 		for {
 			select {
@@ -347,8 +406,13 @@ func runRange(seed int64, plan cpuPlan, lo, hi int, perCase time.Duration) map[i
 				case strings.HasPrefix(l, "BEGIN "):
 					cur, _ = strconv.Atoi(l[6:])
 					buf = nil
+					cfgIdx = -1
+				case strings.HasPrefix(l, "CFG "):
+					fmt.Sscanf(l, "CFG %d %s %d", &cfgIdx, &cfgName, &cfgPar)
 				case strings.HasPrefix(l, "END "):
-					res[cur] = buf
+					res[cur] = append(carried, buf...)
+					carried = nil
+					skip = 0
 					done = cur + 1
 					cur = -1
 				default:
@@ -365,19 +429,59 @@ func runRange(seed int64, plan cpuPlan, lo, hi int, perCase time.Duration) map[i
 		if done >= hi {
 			break
 		}
-		// the worker died or stalled inside case `done` (cur): record and continue after it
+		// the worker died or stalled inside case `cur` at configuration cfgIdx: record that configuration
+		// as hang/crash and resume the same case after it (lines printed only at the end of a case are lost,
+		// so the case restarts at cfgIdx+1 and earlier configurations are re-run only if nothing was carried)
 		bad := done
 		if cur >= 0 {
 			bad = cur
 		}
-		why := "crash worker-process-died"
+		why := "panic worker-process-died"
 		if stalled {
 			why = "hang wall-clock-watchdog"
 		}
-		res[bad] = append(buf, fmt.Sprintf("X %d %s", bad, why))
-		lo = bad + 1
+		if cfgIdx >= 0 {
+			status := strings.SplitN(why, " ", 2)
+			carried = append(carried, fmt.Sprintf("V %d %s %d %s %s cycles=0 ticks=0 regs=%s mem=0000000000000000", bad, cfgName, cfgPar, status[0], status[1], strings.TrimSuffix(strings.Repeat("0,", 32), ",")))
+			// configurations before cfgIdx of this case are re-run by the next worker unless we skip them; their
+			// lines were never printed (printed at END), so re-run from 0 but drop the stalled configuration:
+			// simplest sound choice: mark it and continue with the NEXT configuration only
+			skip = cfgIdx + 1
+			lo = bad
+			// earlier configurations' results are lost: re-run them in a separate quick worker
+			if cfgIdx > 0 {
+				pre := runPrefix(seed, plan, bad, cfgIdx, perCase)
+				carried = append(pre, carried...)
+			} else {
+				carried = append([]string{fmt.Sprintf("B %d gosteps=0 budget=0", bad)}, carried...)
+			}
+		} else {
+			res[bad] = append(buf, fmt.Sprintf("X %d %s", bad, why))
+			carried = nil
+			skip = 0
+			lo = bad + 1
+		}
 	}
 	return res
+}
+
+// runPrefix re-runs configurations [0, upto) of one case (they completed before a later one stalled).
+func runPrefix(seed int64, plan cpuPlan, id, upto int, perCase time.Duration) []string {
+	self, _ := os.Executable()
+	cmd := exec.Command(self, "-cpuworker", fmt.Sprintf("%d|%d|%d|%d", seed, id, id+1, -upto), "-plan", planString(plan), "-out", "/dev/null", "cpuworker")
+	cmd.Env = append(os.Environ(), "GOMAXPROCS=2", "GOMEMLIMIT=1500MiB")
+	out, err := cmd.Output()
+	if err != nil {
+		return []string{fmt.Sprintf("B %d gosteps=0 budget=0", id)}
+	}
+	var ls []string
+	for _, l := range strings.Split(string(out), "\n") {
+		if l == "" || strings.HasPrefix(l, "BEGIN") || strings.HasPrefix(l, "END") || strings.HasPrefix(l, "CFG") {
+			continue
+		}
+		ls = append(ls, l)
+	}
+	return ls
 }
 
 func cpuStream(name string, plan cpuPlan) streamFn {
@@ -444,6 +548,18 @@ var allFamilies = []string{"alu", "dep", "dep-mem", "mem", "br", "br-mem", "shad
 func init() {
 	streams["cpuworker"] = func(dir string, seed int64, tier string) {}
 	streams["cpu-all"] = cpuStream("cpu-all", cpuPlan{families: allFamilies, n: 600, pars: []int{1, 2, 3, 4}, repeats: 1})
+	pipelined := []string{"mvp4", "mvp5", "mvp6-0", "mvp6-1", "mvp6-2", "mvp6-3", "mvp7-0", "mvp7-1", "mvp8-0"}
+	cached := append([]string{"mvp3"}, pipelined...)
+	all4 := []int{1, 2, 3, 4}
+	streams["cpu-c01"] = cpuStream("cpu-c01", cpuPlan{families: allFamilies, n: 770, pars: all4, repeats: 1})
+	streams["cpu-c03"] = cpuStream("cpu-c03", cpuPlan{families: []string{"shadow", "shadow-reg", "br", "shadow-reg", "br-mem", "shadow"}, n: 720, variants: pipelined, pars: all4, repeats: 1})
+	streams["cpu-c04"] = cpuStream("cpu-c04", cpuPlan{families: []string{"dep", "dep-mem", "alu", "dep"}, n: 720, variants: pipelined, pars: all4, repeats: 1})
+	streams["cpu-c05"] = cpuStream("cpu-c05", cpuPlan{families: []string{"mem", "dep-mem", "pair", "tail", "mem"}, n: 600, variants: cached, pars: all4, repeats: 1})
+	streams["cpu-c07"] = cpuStream("cpu-c07", cpuPlan{families: append([]string{"err", "br", "err"}, allFamilies...), n: 700, pars: all4, repeats: 1})
+	streams["cpu-c09"] = cpuStream("cpu-c09", cpuPlan{families: []string{"tail", "br-mem", "tail", "dep-mem"}, n: 720, variants: pipelined, pars: all4, repeats: 1})
+	streams["cpu-c10"] = cpuStream("cpu-c10", cpuPlan{families: []string{"pair", "mem", "pair"}, n: 600, variants: pipelined, pars: all4, repeats: 1})
+	streams["cpu-c12"] = cpuStream("cpu-c12", cpuPlan{families: []string{"alu", "dep", "dep-mem", "mem", "br", "tail", "pair", "br-mem"}, n: 800, pars: all4, repeats: 1, pairs: true})
+	streams["cpu-c08"] = cpuStream("cpu-c08", cpuPlan{families: []string{"dep", "dep-mem", "mem", "br", "pair", "alu", "shadow-reg"}, n: 350, pars: []int{1, 2, 3}, repeats: 3})
 	streams["cpu-inorder"] = cpuStream("cpu-inorder", cpuPlan{families: allFamilies, n: 1500,
 		variants: []string{"mvp1", "mvp2", "mvp3", "mvp4", "mvp5"}, pars: []int{1}, repeats: 1})
 	streams["cpu-seq"] = cpuStream("cpu-seq", cpuPlan{families: []string{"alu", "dep", "dep-mem", "mem", "br", "br-mem", "tail", "pair", "err"}, n: 2000,
@@ -488,7 +604,7 @@ func cpuFileStream(dir string, seed int64, tier string) {
 		}
 		// in-process with a goroutine watchdog: a stuck case is reported, the process exits afterwards
 		done := make(chan []string, 1)
-		go func() { done <- runCase(i, c, plan) }()
+		go func() { done <- runCase(i, c, plan, 0, nil) }()
 		select {
 		case lines := <-done:
 			o.Emit(inLine(i, c), strings.Join(lines, " @@ "))
